@@ -860,6 +860,7 @@ Chunks02  == <<0, 2>>
 Chunks33  == <<3, 3>>
 Chunks222 == <<2, 2, 2>>
 Chunks123 == <<1, 2, 3>>
+Chunks111 == <<1, 1, 1>>
 
 (* Liveness: close always returns *)
 CloseReturns == <>(pc[MainId] = "Done")
